@@ -18,6 +18,7 @@ func VH_C11_Stack(p []int) {
 	after := vhSnapDeep(s, 0)
 	verifAssert(h.stack == s.stack, "handle-unchanged")
 	vhAssertNodeSame(before, after, "unchanged")
+	vhAssertUnlocked(s, "after-query")
 	// the same call repeated gives the same answer
 	r2 = call(&h)
 	verifAssert(len(r1) == len(r2), "repeat-arity")
